@@ -85,7 +85,9 @@ CHECKS['C20'] = dict(
 CHECKS['C16'] = dict(
    text='Exhaustive TLC model checking of the transmit FIFO (Btdmp.tla with ghost input/output history; capacity 4 quick / 6 '
         'thorough, all periods, every history of send/flush/enable/period/tick/skip within the horizon) decides FIFO order, '
-        'one frame per period, flags, interrupt timing and Skip(k) = Tick^k; random histories on real Btdmp objects in the Teakra '
+        'one frame per period, flags, interrupt timing and Skip(k) = Tick^k; the counting part of that equation (phase, queue length, flags, '
+        'frames, no interrupt below the horizon) is proved at the real constants for all states by Apalache/SMT on the length abstraction '
+        'of the port (BtdmpInd.tla); random histories on real Btdmp objects in the Teakra '
         'wiring (direct, MMIO and CoreTiming paths, capacity 16) are validated by TLC against the same operators, and '
         'guest programs feeding both ports on a full Teakra are validated against the composed System.tla (frames, interrupts, flags '
         'at every slice; idle programs go through Btdmp::Skip while the specification only ticks; long runs of hundreds of periods '
@@ -93,7 +95,7 @@ CHECKS['C16'] = dict(
    design_ref='5.16',
    note='Trusted: TLC, CommunityModules, g++; Btdmp.tla as a reading of the property. Full width (capacity 16, 16-bit words, '
         'period 4096) is covered by trace validation, exhaustive only at the scaled constants.',
-   technique='TLA+ spec + TLC exhaustive model checking + TLC trace validation of recorded executions')
+   technique='TLA+ spec + TLC exhaustive model checking + Apalache (SMT) lemmas at the real constants + TLC trace validation of recorded executions')
 CHECKS['C12'] = dict(
    text='Mmio.tla is the MMIO register file as an explicit hand-written table (177 documented offsets, 32 bit-field registers with 97 '
         'slots, side-effect cells). TLC checks read-back, non-aliasing against an explicit documented-coupling relation (shown tight), '
